@@ -12,7 +12,7 @@ OBLIGATIONS = [
     "PgmVerif.acyclic_add_edge", "PgmVerif.hasPath_complete",
     "PgmVerif.C15_step_book", "PgmVerif.C15_bookkeeping",
     "PgmVerif.shaped_marg", "PgmVerif.C15_step_cpds", "PgmVerif.C15_cpd_bookkeeping",
-    "PgmVerif.C15_remove_forgets", "PgmVerif.C15_do_parentless",
+    "PgmVerif.C15_remove_forgets", "PgmVerif.C15_do_parentless", "PgmVerif.C15_reachable_consistent",
 ]
 PARTIAL = ["copy independence is a heap fact: decided by continuing the history on both objects and comparing each with its own model state",
            "DynamicBayesianNetwork / JunctionTree / MarkovNetwork histories are checked against the invariant predicates on the implementation "
